@@ -541,6 +541,19 @@ def _check_link_inds(ctx, r):
     else:
         r.bad(Finding("pairing", "TensorNetwork._unlink_tags", "tid not discarded or empty tag entry not deleted",
                       where=f"{f.module.relpath}:{f.lineno}", operand="entry"))
+    # _reset_inner_outer: occurrences == 1 -> outer, else inner
+    f = ctx.prog.func(tc, "TensorNetwork._reset_inner_outer")
+    var = next((n.target.id for n in ast.walk(f.node) if isinstance(n, ast.For) and isinstance(n.target, ast.Name)), None)
+    iff = next((n for n in ast.walk(f.node) if isinstance(n, ast.If) and isinstance(n.test, ast.Compare) and const_value(n.test.comparators[0], None) == 1), None)
+    if var is None or iff is None:
+        raise AnalysisError("_reset_inner_outer lost its occurrence test")
+    one = _stmts_effects(iff.body, var)
+    many = _stmts_effects(iff.orelse, var)
+    if one == {("_inner_inds", "discard"), ("_outer_inds", "add")} and many == {("_inner_inds", "add"), ("_outer_inds", "discard")}:
+        r.ok("TensorNetwork._reset_inner_outer", sample={"occurrences==1": sorted(one), "else": sorted(many)})
+    else:
+        r.bad(Finding("pairing", "TensorNetwork._reset_inner_outer", f"occurrences==1 -> {sorted(one)}, else -> {sorted(many)}; expected outer / inner classification in both sets",
+                      where=f"{f.module.relpath}:{f.lineno}", operand="reset"))
     f = ctx.prog.func(tc, "TensorNetwork._link_tags")
     srct = src_of(f.node)
     if ".add(tid)" in srct and "= oset((tid,))" in srct:
